@@ -757,6 +757,11 @@ func one(r *vk.Run, c Case, kind, n, step int, prog []model.Node, src string, ex
 				return nil
 			}
 		}
+		if c.Depth > 64 {
+			// how deep constructs may nest is not stated: beyond 64 levels an engine may refuse with an error
+			r.Class("deep nesting refused with an error")
+			return nil
+		}
 		return fail("render failed (%v), reference output %q", res.Err, want.Out)
 	}
 	if !match.SameText(res.Out, want.Out) {
